@@ -47,8 +47,9 @@ def do_case(ctx, inp):
     # shape / labels of the result
     keep_ids = [i for i, c in zip(ids, fcols_l) if c is None]
     rv = [v.id for v in R.variables]
-    if rv != [0] + keep_ids or len(rv) != R.shape[1]:
-        ctx.fail("result-variables-do-not-describe-columns", {"variables": rv, "expected": [0] + keep_ids})
+    first_id = g.variables[0].id
+    if rv != [first_id] + keep_ids or len(rv) != R.shape[1]:
+        ctx.fail("result-variables-do-not-describe-columns", {"variables": rv, "expected": [first_id] + keep_ids})
     want_index = [g.index[i].id for i, m in enumerate(frows_l) if not m]
     got_index = [v.id for v in R.index]
     if got_index != want_index or len(got_index) != R.shape[0]:
@@ -69,8 +70,8 @@ def do_case(ctx, inp):
         if cm is not None: op["cols"] = cm
         ctx.op(op, {"reduced": snap_poly(R2)}, label="reduce-with-caller-masks-" + name)
         keep2 = [i for i, c in zip(ids, cm or [None] * nc) if c is None]
-        if [v.id for v in R2.variables] != [0] + keep2:
-            ctx.fail("result-variables-do-not-describe-columns", {"variables": [v.id for v in R2.variables], "expected": [0] + keep2, "call": name})
+        if [v.id for v in R2.variables] != [g.variables[0].id] + keep2:
+            ctx.fail("result-variables-do-not-describe-columns", {"variables": [v.id for v in R2.variables], "expected": [g.variables[0].id] + keep2, "call": name})
         want_idx = [g.index[i].id for i, m in enumerate(rm or [0] * len(p["rows"])) if not m]
         if [v.id for v in R2.index] != want_idx:
             ctx.fail("result-index-does-not-describe-rows", {"index": [v.id for v in R2.index], "expected": want_idx, "call": name})
